@@ -148,6 +148,16 @@ func (w *World) Invariant(s *vs.Sched) string {
 		}
 		oracleEvals["C06_cancelled_caller_states_judged"]++
 		r := c.Thread.Pending()
+		if r != nil && r.Kind == vs.OpLock && r.Holder != nil && !s.IsEnabled(c.Thread) {
+			// an admission lock is fine as long as its holder is on its way to release
+			// it; a holder that is itself parked on a wait (not another lock) keeps
+			// the cancelled caller for as long as that wait lasts
+			if h := r.Holder(); h != nil && !h.Done() && h != c.Thread {
+				if hr := h.Pending(); hr != nil && hr.Kind != vs.OpLock && hr.Kind != vs.OpUnlock && !s.IsEnabled(h) {
+					return fmt.Sprintf("C06: caller %s is blocked on a lock although its context is done, and the lock's holder is itself waiting (%s)", c.Spec.Label, hr.Kind)
+				}
+			}
+		}
 		if r == nil || r.Kind == vs.OpLock || r.Kind == vs.OpStart || r.Kind == vs.OpSleep {
 			continue
 		}
@@ -156,6 +166,36 @@ func (w *World) Invariant(s *vs.Sched) string {
 		}
 	}
 	return ""
+}
+
+// OnStuck judges the final state of a deadlocked or livelocked execution for
+// C05: nothing further can happen, so an item of a request that was accepted
+// (Consume returned nil) and has not reached the next consumer is lost.
+func (w *World) OnStuck(out *vs.Outcome) []string {
+	d := w.deliveries()
+	lost, accepted := 0, 0
+	var first string
+	for _, c := range w.callers {
+		for _, rs := range c.Reqs {
+			if !rs.Returned || rs.Err != nil {
+				continue
+			}
+			for _, id := range rs.IDs {
+				accepted++
+				if len(d[id]) == 0 {
+					lost++
+					if first == "" {
+						first = id
+					}
+				}
+			}
+		}
+	}
+	oracleEvals["C05_stuck_states_judged"]++
+	if lost == 0 {
+		return nil
+	}
+	return []string{fmt.Sprintf("C05: the processor is stuck for good and %d of %d items of accepted requests (Consume returned nil) were never passed on, e.g. %s", lost, accepted, first)}
 }
 
 // Check is the end-of-execution oracle.
